@@ -36,7 +36,8 @@ func init() {
 		}
 	}
 	s := c16ServiceEdges
-	add(s, []string{"unavailable"}, "registering")
+	add(s, []string{"unavailable", ""}, "registering")
+	add(s, []string{"registering"}, "pause") // approved while the appchain is not available
 	add(s, []string{"registering"}, "available")
 	addLast(s, "registering")
 	add(s, []string{"available", "frozen", "logouting"}, "updating")
@@ -238,15 +239,26 @@ func c16Property(t *rapid.T) {
 		}
 		return out
 	}
+	newSvcs := 0
 	t.Repeat(map[string]func(*rapid.T){
 		"lifecycle": func(t *rapid.T) {
 			obj := r.objs[rapid.IntRange(0, len(r.objs)-1).Draw(t, "obj")]
-			op := rapid.SampledFrom([]string{"freeze", "freeze", "activate", "activate", "logout", "update"}).Draw(t, "op")
+			op := rapid.SampledFrom([]string{"freeze", "freeze", "activate", "activate", "logout", "update", "register"}).Draw(t, "op")
+			if op == "register" {
+				// a new service of the chain: its registration proposal stays open while the chain goes on with its life
+				newSvcs++
+				obj = fmt.Sprintf("%s:new%d", chainOf(obj), newSvcs)
+				r.objs = append(r.objs, obj)
+				r.status[obj] = ""
+			}
 			chain := chainOf(obj)
 			gov, own := w.N.Admins[rapid.IntRange(0, 3).Draw(t, "admin")], sim.ChainAdmins[chain]
 			var tx *pb.BxhTransaction
 			isSvc := strings.Contains(obj, ":")
 			switch {
+			case op == "register":
+				p := strings.Split(obj, ":")
+				tx = w.RegisterServiceTx(own, p[0], p[1], true, "")
 			case isSvc && op == "freeze":
 				tx = w.BVM(gov, constant.ServiceMgrContractAddr, "FreezeService", pb.String(obj), pb.String("r"))
 			case isSvc && op == "activate":
@@ -304,6 +316,12 @@ func c16Property(t *rapid.T) {
 			touched := map[string]bool{}
 			for _, k := range p.touches {
 				touched[k] = true
+			}
+			if !strings.Contains(p.obj, ":") {
+				// a chain-level conclusion cascades to the services the chain has now, also those registered meanwhile
+				for _, sv := range servicesOf(p.obj) {
+					touched[sv] = true
+				}
 			}
 			// concluding a proposal can restore proposals it had locked on the same object
 			what := fmt.Sprintf("votes approve=%v on %s (%s %s) -> %v %v %v", approve, p.id, p.op, p.obj, rs[0].IsSuccess(), rs[1].IsSuccess(), rs[2].IsSuccess())
